@@ -226,6 +226,52 @@ def sparse_class_fixed_point(ctx, rng):
         ctx.violation("fixedpoint", "parse_object-changes-own-result/sparse-class-spec/after-failed-parse", dict(how=how, config=short(C, 500), reparsed=short(o2.value, 500) if o2.accepted else o2.brief(), at=steps_str(d[0]) if o2.accepted else None))
 
 
+def provenance_fixed_points(ctx, i, rng):
+    """results that carry provenance (values loaded from their own file, a default config file in force) are fixed points
+    like any other: the provenance must not reach validation, serialisers or the subcommand bookkeeping of dump"""
+    from typing import Dict
+
+    from jsonargparse import ActionConfigFile, ArgumentParser
+
+    wd = os.path.join(ctx.workdir, f"prov{i % 4}")
+    os.makedirs(wd, exist_ok=True)
+    with open(os.path.join(wd, "d.json"), "w") as f:
+        json.dump({"k": rng.randrange(9), "j": 2}, f)
+    with open(os.path.join(wd, "defaults.json"), "w") as f:
+        json.dump({"top": 5}, f)
+
+    p = ArgumentParser(exit_on_error=False, default_config_files=[os.path.join(wd, "defaults.json")])
+    p.add_argument("--cfg", action=ActionConfigFile)
+    p.add_argument("--top", type=int, default=1)
+    p.add_argument("--d", type=Dict[str, int], enable_path=True)
+    sc = p.add_subcommands(required=rng.random() < 0.5)
+    a = ArgumentParser(exit_on_error=False)
+    a.add_argument("--x", type=int, default=2)
+    sc.add_subcommand("add", a)
+    sc.add_subcommand("prune", ArgumentParser(exit_on_error=False))
+    argv = rng.choice([["--d", os.path.join(wd, "d.json"), "prune"], ["prune"], ["--d", os.path.join(wd, "d.json"), "add", "--x=3"], ["add"]])
+    o = call(p.parse_args, argv)
+    ctx.count("mon.provenance_fixed_points")
+    ctx.evaluation(("prov", tuple(a_ if not a_.startswith("/") else "<file>" for a_ in argv)))
+    if not o.accepted:
+        ctx.violation("fixedpoint", f"valid-input-rejected/provenance-scenario/{o.exc_type}", dict(argv=argv, outcome=o.brief()))
+        return
+    C = o.value
+    for name, f in (("validate", lambda: p.validate(copy.deepcopy(C))), ("dump", lambda: p.dump(copy.deepcopy(C))), ("dump.json", lambda: p.dump(copy.deepcopy(C), format="json"))):
+        r = call(f)
+        if not r.accepted:
+            ctx.violation("fixedpoint", f"{name}-rejects-own-result/with-provenance/{r.exc_type}", dict(argv=[a_.replace(wd, "<wd>") for a_ in argv], config=short(C, 500), outcome=r.brief()))
+            return
+    d1 = call(p.dump, copy.deepcopy(C)).value
+    ob = call(p.parse_string, d1)
+    if not ob.accepted:
+        ctx.violation("fixedpoint", "dump-parse-dump/reparse-rejected/with-provenance", dict(argv=[a_.replace(wd, "<wd>") for a_ in argv], first=d1, outcome=ob.brief()))
+        return
+    d2 = call(p.dump, ob.value)
+    if not d2.accepted or d2.value != d1:
+        ctx.violation("fixedpoint", "dump-parse-dump-not-identical/with-provenance", dict(argv=[a_.replace(wd, "<wd>") for a_ in argv], first=d1, second=d2.value if d2.accepted else d2.brief()))
+
+
 def prefix_named_class_spec(rng, spec):
     """class-typed options whose names are string prefixes of each other (model, model_ema, model_ema2), each with a default
     that carries init_args: a class change on one of them has to discard exactly that option's stale init_args"""
@@ -274,6 +320,8 @@ def case(ctx, i, rng):
     os.makedirs(otherdir, exist_ok=True)
     if i % 7 == 2:
         sparse_class_fixed_point(ctx, rng)
+    if i % 7 == 4:
+        provenance_fixed_points(ctx, i, rng)
     results = list(sources(rng, spec, p, ctx.workdir, i))
     if i % 7 == 2:
         # the same failing parse, this time between producing the results and judging them
